@@ -685,6 +685,14 @@ func (e *enc) trCall(n *ECall, env *Env) Val {
 		e.regState("frontier", "Int")
 		v := e.tr(n.Args[0], env)
 		return Val{T: "(>= " + v.T + " " + e.getIn(env.old, "frontier") + ")", S: "Bool"}
+	case "funcval":
+		// funcval("valid.In$1"): the value of a function of the repository (what a dynamic call through it sees as `callee`)
+		if st, ok := n.Args[0].(*EStr); ok {
+			if f := e.v.funcs[st.V]; f != nil {
+				return Val{T: fmt.Sprint(e.v.funcID(f)), S: "Int", Fn: f}
+			}
+			e.trFail("funcval: unknown function %q", st.V)
+		}
 	case "byteAt":
 		a := e.trArgs(n.Args, env)
 		if len(a) == 2 {
